@@ -34,9 +34,30 @@ type dlPlan struct {
 	RStart time.Duration // reader issues its first Read this long after it got the stream
 	REvery int           // reader pauses RGap after every REvery-th Read that returned bytes (0 = never; at most 24 pauses)
 	RGap   time.Duration
+	// one long idle period (longer than the timeouts the library arms by itself, see longPauses)
+	WLong   time.Duration // writer pauses this long once, before its Write call number WLongAt (counted over the whole direction)
+	WLongAt int
+	RLong   time.Duration // reader pauses this long once, before its Read call number RLongAt
+	RLongAt int
 }
 
 func (d dlPlan) active() bool { return d != dlPlan{} }
+
+// from is the schedule for the Write calls from number k on, only for call number k.
+func (d dlPlan) from(k int) dlPlan {
+	if d.WLongAt -= k; d.WLongAt < 0 {
+		d.WLong, d.WLongAt = 0, 0
+	}
+	return d
+}
+
+func (d dlPlan) only(k int) dlPlan {
+	if d.WLongAt != k {
+		d.WLong = 0
+	}
+	d.WLongAt = 0
+	return d
+}
 
 func (d dlPlan) String() string {
 	if !d.active() {
@@ -61,6 +82,12 @@ func (d dlPlan) String() string {
 	}
 	if d.REvery > 0 {
 		fmt.Fprintf(&b, "rpause=%v/%d ", d.RGap, d.REvery)
+	}
+	if d.WLong > 0 {
+		fmt.Fprintf(&b, "widle=%v@%d ", d.WLong, d.WLongAt)
+	}
+	if d.RLong > 0 {
+		fmt.Fprintf(&b, "ridle=%v@%d ", d.RLong, d.RLongAt)
 	}
 	return strings.TrimRight(b.String(), " ") + "]"
 }
@@ -165,6 +192,28 @@ func drawStreamDeadlines(rt *rapid.T, label string, d *dirPlan, pollCap int) {
 	d.Writes = drawWrites(rt, label+"d", d.Total)
 }
 
+// longPauses are idle periods that exceed the timeouts the library arms on its own while a
+// stream is set up or kept alive: the hosts' protocol-negotiation timeout (configurable,
+// default 10 s; armed on every inbound stream before its handler runs), yamux' connection
+// write timeout (10 s) and keep-alive interval (30 s), identify's 30 s / 60 s timeouts. The
+// statement puts no bound on the time between two Writes or two Reads: bytes written after
+// any such idle period must arrive like all the others. Virtual time: they cost nothing.
+var longPauses = []time.Duration{11 * time.Second, 1500 * time.Millisecond, 35 * time.Second, 4 * time.Second, 65 * time.Second, 130 * time.Second}
+
+// drawLongPause gives one direction of a stream one long idle period: the writer stops
+// before one of its Write calls, or the reader before one of its Read calls (the first one,
+// or one in the middle of the payload).
+func drawLongPause(rt *rapid.T, label string, d *dirPlan) {
+	dur := rapid.SampledFrom(longPauses).Draw(rt, label+"-idle")
+	if rapid.IntRange(0, 2).Draw(rt, label+"-idle-who") > 0 && len(d.Writes) > 0 {
+		d.DL.WLong = dur
+		d.DL.WLongAt = rapid.IntRange(0, min(len(d.Writes)-1, 3)).Draw(rt, label+"-idle-at")
+		return
+	}
+	d.DL.RLong = dur
+	d.DL.RLongAt = rapid.IntRange(0, 3).Draw(rt, label+"-idle-at")
+}
+
 // drawConnDeadlines: connection layers (Noise, TLS, pnet). Only the part of the dimension
 // that applies to them:
 //
@@ -227,6 +276,19 @@ func dlLabels(add func(string), d dirPlan, wr writeResult, rd readResult, stream
 	}
 	if dl.WGap > 0 {
 		add("pausing-writer")
+	}
+	for _, idle := range []struct {
+		who string
+		d   time.Duration
+	}{{"writer", dl.WLong}, {"reader", dl.RLong}} {
+		if idle.d > 0 {
+			add("idle:" + idle.who)
+			for _, th := range []time.Duration{time.Second, 10 * time.Second, 30 * time.Second, time.Minute} {
+				if idle.d > th {
+					add(fmt.Sprintf("idle:>%v", th))
+				}
+			}
+		}
 	}
 	if wr.partial > 0 {
 		add("observed:Write=(0<n<len,timeout)")
